@@ -296,6 +296,7 @@ class Stats:
         self.samples = []
         self.nt_samples = []
         self.excluded_known = {}
+        self.aux = []
         self.violations = []   # (case, fails)
 
     def add(self, case, res, known):
@@ -314,6 +315,8 @@ class Stats:
             self.nontrivial.add(extra)
         for lab in res.get('labels', []):
             self.labels[lab] = self.labels.get(lab, 0) + 1
+        if 'aux' in res and len(self.aux) < 500:
+            self.aux.append(res['aux'])
         unlisted = []
         for f in res.get('fails', []):
             key = known.classify(case, f) if known else None
@@ -328,7 +331,7 @@ class Stats:
             'evaluations': self.evaluations, 'cases': self.cases,
             'nontrivial': sorted(self.nontrivial), 'labels': self.labels,
             'samples': self.samples, 'nt_samples': self.nt_samples,
-            'excluded_known': self.excluded_known,
+            'excluded_known': self.excluded_known, 'aux': self.aux,
         }
 
     def merge(self, d):
@@ -345,6 +348,7 @@ class Stats:
                 self.nt_samples.append(s)
         for k, v in d['excluded_known'].items():
             self.excluded_known[k] = self.excluded_known.get(k, 0) + v
+        self.aux.extend(d.get('aux', []))
 
 
 def _short(case, limit=1500):
@@ -398,6 +402,8 @@ class Context:
             self.violations.append((case, unlisted))
         if 'aux' in res:
             self.aux.append(res['aux'])
+            if self.stats.aux and self.stats.aux[-1] is res['aux']:
+                self.stats.aux.pop()
 
     def note(self, key, value):
         self.notes[key] = value
@@ -434,6 +440,7 @@ class Context:
         jobs = [(strategy_name, per, base + i, kwargs) for i in range(shards)]
         for out in self.pool().imap_unordered(_worker_hypothesis, jobs):
             self.stats.merge(out['stats'])
+            self.aux.extend(out['stats'].get('aux', []))
             if 'harness_error' in out:
                 self.harness_errors.append(out['harness_error'])
             if out.get('failure'):
